@@ -37,7 +37,7 @@ def mk(kind):
         return h.date(2021, 3, d)
     def time(h, l):
         s = z3.BitVec('ss%d' % l.n, 32); l.n += 1; h.ex.assume(z3.ULE(s, 59))
-        return h.time(12, 30, s)
+        return h.time(12, 30, s, [0, 100000000, 900000000][h.ex.pick(3)])       # same second, different fractions
     def lst(h, l):
         n = h.ex.pick(4)
         if n == 3: return h.list_([h.null()])
